@@ -15,6 +15,7 @@ from props.c10_prims import NP_LAYOUTS, _layout, _np_layout
 
 PROP = "C10"
 EXTRA_LEAN_MODULES = ["DirectVerif.Lemmas.TensorLiftC10",   # n-D corollaries (lifting laws of alongAxis)
+                      "DirectVerif.Props.C10PadCoil",      # PadCoilDimensionModule: zeros in front, values kept, count, idempotent, keys
                       "DirectVerif.Lemmas.C10Modules",     # key plumbing, call histories, crop-shape forms of the k-space modules
                       "DirectVerif.Lemmas.C10Kspace",      # k-space crop/pad == image crop/pad over the C01 plans (abstract backend, 1-D, 2 axes)
                       "DirectVerif.Lemmas.C10KspaceDft"]   # … instantiated with the concrete DFT of C01 (Mathlib ZMod.dft)
@@ -37,14 +38,20 @@ MANIFEST = {
             "three argument forms of CropKspace (string = tuple for every rank and length) and the patch allocation of crop_to_bbox are "
             "translated tables/kernels with decided predicates; history independence of "
             "stateless modules and the frame property (other k-space key untouched) are proved for the definitions the driver "
-            "runs. Tied to the code by translated arithmetic (bridge lemmas closed by omega/decide) and exact differential "
+            "runs. PadCoilDimensionModule has an executable model (Props/C10PadCoil.lean): for every requested coil count and "
+            "every fibre the result is num-n exact zeros IN FRONT of the unchanged data (values, zeros, output count = num, raises "
+            "iff num != 0 and n > num, identity for None/0/equal, idempotent, dropping the added coils restores the tensor n-D), a "
+            "missing key returns the sample unchanged, the other key is untouched, histories are independent; its guard chain + "
+            "zero-coil count are a translated integer kernel (bridge pad_coil_forward_eq) and the torch.cat operand order a "
+            "translated table (pad_coil_cat_eq); exact correspondence through the `padcoil` op. "
+            "Tied to the code by translated arithmetic (bridge lemmas closed by omega/decide) and exact differential "
             "correspondence on labelled tensors, including the module ops with an exact operator pair (flip).",
     "note": "Trusted: Lean kernel (+propext, Classical.choice, Quot.sound), the AST translator and table extractors, torch slicing/"
             "F.pad/flip semantics as encoded by slice/fPad/reverse (the row-major per-axis lifting is proved, Lemmas/TensorLift.lean). "
             "torch.fft enters only through C01's Lawful backend hypotheses (inverse pair; discharged for the concrete 1-D DFT); the "
             "n-D k-space statements with FFT operators are additionally checked on the implementation under tolerance. The "
             "view_as_complex/view_as_real pair is modelled as a regrouping of the trailing axis (pad acts on the axes before it). "
-            "RescaleKspace's interpolation and PadCoilDimensionModule are covered by tables and history/key oracles only. "
+            "RescaleKspace's interpolation is covered by tables and history/key oracles only. "
             "Pinned-tree defects are kept as `_pinned_violates` witnesses (pad order, string crop on 5-D data, crop_to_largest "
             "centring, bool patch dtype, cached crop shape, default-key helper). Oracle-only: the one-element sigma list of "
             "complex_random_crop, dtype preservation beyond the allocation table, the copy direct/utils/bbox.py.",
@@ -56,7 +63,8 @@ TRUSTED = [
     "harness/translate (Python AST -> Lean): arithmetic kernels of center_crop / complex_center_crop / pad_tensor / crop_to_bbox / "
     "crop_to_largest; recipes/c10_tables.py: k-space data-flow plans with key plumbing (nested functions and private helpers "
     "followed through call-site bindings and parameter defaults), state-write / sample-access / in-place / caller tables, "
-    "CropKspace crop-shape rule",
+    "CropKspace crop-shape rule; PadCoilDimensionModule.forward guard chain / zero-coil count / torch.cat operand order "
+    "(`not self.num_coils` is read as num == 0 with None passed as 0; `self.key not in sample` as a presence flag)",
     "Tensor.alongAxis (row-major lifting of 1-D list functions to one axis) is proved functorial (Lemmas/TensorLift.lean: "
     "alongAxis_comp/_id_of/_cancel/_fibre, commutation of gathers) for the very definition the driver runs; the n-D corollaries "
     "(one and two axes) are obligations of this check",
@@ -72,6 +80,8 @@ ASSUMPTIONS = [
     "module correspondence uses the exact operator pair flip/flip (an involution) as forward/backward operator; with the FFT "
     "pairs (default, uncentered, ortho) the reference semantics are compared under 1e-4 relative tolerance (FFT rounding), "
     "persistent-vs-fresh instance comparisons are bit-identical for every operator pair",
+    "PadCoilDimensionModule correspondence: float32 data, coil_dim in {0, 1} (in range), pad_coils in {None, 0, -1, 1..7}; "
+    "dtype/device of the zeros block are checked only as 'result stays float32'",
     "a (z, x, y) pad target / 3-element crop applied to 2-D data and one gaussian sigma per *resolved* crop entry are outside "
     "the pinned-down semantics (only history independence, key plumbing and aliasing are checked there)",
 ]
@@ -272,6 +282,8 @@ def correspondence(ctx: Ctx):
     # ---- the k-space modules (PadKspace / CropKspace) with exact operators: plan + key plumbing + crop-shape forms
     from props.c10_modules import correspondence_modules
     yield from correspondence_modules(ctx)
+    from props.c10_modules import correspondence_padcoil
+    yield from correspondence_padcoil(ctx)
 
 
 # --------------------------------------------------------------------------------------------------
